@@ -35,6 +35,9 @@ type Sim struct {
 	Pending []*PendingTx
 	nonce   uint32
 	Blocks  []*BlockRec // committed on the producer, index = height-1
+	SetHistory [][]string // consensus sets in force over time (peer ids)
+	badSince   int        // rejected Byzantine submissions since the last committed block
+	LastTrace  *BlockTrace
 }
 
 // PendingTx is a built transaction plus what the plan meant by it.
